@@ -255,6 +255,21 @@ def leaf_tags(G, names, token_enums):
     return out
 
 
+def builders_of(G, sim_helpers, pred):
+    """parser functions that build a node (pred(body) is true) themselves or through the plain helper functions they call (`fold_level(first, rest)`)"""
+    hb = set()
+    changed = True
+    while changed:
+        changed = False
+        for n, it in sim_helpers.items():
+            if n in hb:
+                continue
+            if pred(it["body"]) or any(last_seg(p[1]) in hb for p in find(it["body"], "path")):
+                hb.add(n)
+                changed = True
+    return sorted(n for n, it in G.fns.items() if pred(it["body"]) or any(last_seg(p[1]) in hb for p in find(it["body"], "path")))
+
+
 def closure(G, root, stubs):
     seen, todo = set(), [root]
     while todo:
@@ -321,7 +336,7 @@ def unary_sites(rep, T, G, items, enums, chain, entry, bottom, sentinel, glue):
                 rep.note("undecided", {"rule": RULE, "emitter": m, "variant": name, "why": "text around the operand not a closed affix"})
                 continue
             text = c[0]
-            builders = sorted(b for b, pit in G.fns.items() if any(re.search(r"(^|::)%s::%s$" % (ty, v[1]), p[1]) for p in find(pit["body"], "path")))
+            builders = builders_of(G, PegSim(items).helpers, lambda body: any(re.search(r"(^|::)%s::%s$" % (ty, v[1]), p[1]) for p in find(body, "path")))
             if not builders:
                 rep.note("token_variant_not_built_by_the_parser_here", {"emitter": m, "variant": name, "literal": text})
                 continue
@@ -366,12 +381,13 @@ def run(F, rep, fm, reach, enums, structs):
     T = Tables(fm, reach, enums, structs, sentinel)
     glue = identifier_glue(G, None)
     rep.note("reach_operand_model", {"sentinel": sentinel, "identifier_glue_characters": "".join(sorted(glue)), "levels": chain, "operand_parser": bottom})
+    helpers = PegSim(items).helpers
     ctxs = T.contexts()
     n_ctx = n_site = n_und = 0
     tables = set()
     for m, ty, scen in ctxs:
         # parser functions that build this node; the text must be read back by (one of) the outermost of them
-        builders = sorted(n for n, it in G.fns.items() if any(last_seg(s[1]) == ty for s in find(it["body"], "struct")))
+        builders = builders_of(G, helpers, lambda body: any(last_seg(s[1]) == ty for s in find(body, "struct")))
         roots = [n for n in builders if not any(n != o and any(last_seg(p[1]) == n for p in find(G.fns[o]["body"], "path")) for o in builders)]
         if not roots:
             rep.note("undecided", {"rule": RULE, "emitter": m, "why": "no parser function builds %s" % ty})
